@@ -301,7 +301,7 @@ func (c *userTypesCollector) collect(node internalSchema.Node) {
 	case *internalSchema.MixedValueNode:
 		for _, ut := range strings.Split(n.Value().String(), "|") {
 			s := strings.TrimSpace(ut)
-			if s[0] == '@' {
+			if strings.HasPrefix(s, "@") { // s is empty for a dangling "|"
 				c.addType(s)
 			}
 		}
@@ -320,7 +320,7 @@ func (c *userTypesCollector) collectUserTypesFromTypesListConstraint(node intern
 	}
 
 	for _, name := range list.Names() {
-		if name[0] == '@' {
+		if strings.HasPrefix(name, "@") { // a name is empty for a dangling "|" in a type shortcut
 			c.addType(name)
 		}
 	}
@@ -338,7 +338,7 @@ func (c *userTypesCollector) collectUserTypesFromTypeConstraint(node internalSch
 	}
 
 	name := typ.Bytes().Unquote().String()
-	if name[0] == '@' {
+	if strings.HasPrefix(name, "@") { // name is empty for {type: ""}
 		c.addType(name)
 	}
 }
@@ -355,7 +355,7 @@ func (c *userTypesCollector) collectUserTypesFromAllOfConstraint(node internalSc
 	}
 
 	for _, name := range allOf.SchemaNames() {
-		if name[0] == '@' {
+		if strings.HasPrefix(name, "@") {
 			c.addType(name)
 		}
 	}
@@ -382,7 +382,7 @@ func (c *userTypesCollector) collectUserTypesObjectNode(node *internalSchema.Obj
 		k := v.Key
 
 		if v.IsShortcut {
-			if k[0] == '@' {
+			if strings.HasPrefix(k, "@") {
 				c.addType(k)
 			}
 		}
